@@ -188,7 +188,22 @@ pub fn run_fuzz(ctx: &Ctx, rep: &mut Report) {
     }
     let runs: u64 = std::env::var("HV_FUZZ_RUNS").ok().and_then(|s| s.parse().ok()).unwrap_or(100_000);
     let jobs = 16;
-    let status = Command::new("cargo")
+    let mut cmd = Command::new("cargo");
+    {
+        use std::os::unix::process::CommandExt;
+        unsafe {
+            cmd.pre_exec(|| {
+                // undo the checking process's address-space limit for the sanitizer build
+                let mut lim: libc::rlimit = std::mem::zeroed();
+                if libc::getrlimit(libc::RLIMIT_AS, &mut lim) == 0 {
+                    lim.rlim_cur = lim.rlim_max;
+                    libc::setrlimit(libc::RLIMIT_AS, &lim);
+                }
+                Ok(())
+            });
+        }
+    }
+    let status = cmd
         .current_dir(&harness)
         .args(["+nightly", "fuzz", "run", "props"])
         .arg(&corpus)
